@@ -55,6 +55,9 @@ def main():
         if prop == "C08":
             import props_typed
             return props_typed.run_c08(prop, tier)
+        if prop == "C09":
+            import props_typed
+            return props_typed.run_c09(prop, tier)
         print("unknown property", prop)
         return 2
     except (common.MachineryError, tlcrun.TLCError) as e:
